@@ -155,7 +155,10 @@ pub fn write_dso_debug_stream(
         // goblin::elf::Dyn doesn't have padding bytes
         let (head, body, _tail) = unsafe { dyn_data.align_to::<goblin::elf::Dyn>() };
         assert!(head.is_empty(), "Data was not aligned");
-        let dyn_struct = &body[0];
+        // A read that runs into unreadable memory returns fewer bytes than asked for
+        let dyn_struct = body.first().ok_or(SectionDsoDebugError::CouldNotFind(
+            "a complete entry of the dynamic section",
+        ))?;
 
         let debug_tag = goblin::elf::dynamic::DT_DEBUG;
         if dyn_struct.d_tag == debug_tag {
@@ -179,7 +182,9 @@ pub fn write_dso_debug_stream(
     // goblin::elf::Dyn doesn't have padding bytes
     let (head, body, _tail) = unsafe { debug_entry_data.align_to::<RDebug>() };
     assert!(head.is_empty(), "Data was not aligned");
-    let debug_entry = &body[0];
+    let debug_entry = body
+        .first()
+        .ok_or(SectionDsoDebugError::CouldNotFind("a complete r_debug"))?;
 
     // Count the number of loaded DSOs
     let mut dso_vec = Vec::new();
@@ -196,7 +201,9 @@ pub fn write_dso_debug_stream(
         // LinkMap is repr(C) and doesn't have padding bytes, so this should be safe
         let (head, body, _tail) = unsafe { link_map_data.align_to::<LinkMap>() };
         assert!(head.is_empty(), "Data was not aligned");
-        let map = &body[0];
+        let map = body.first().ok_or(SectionDsoDebugError::CouldNotFind(
+            "a complete link_map entry",
+        ))?;
 
         curr_map = map.l_next;
         dso_vec.push(map.clone());
